@@ -161,6 +161,11 @@ Proof.
     repeat (apply andb_prop in E; destruct E as [E ?]).
     repeat match goal with X : (_ <=? _) = true |- _ => apply Z.leb_le in X | X : (_ <? _) = true |- _ => apply Z.ltb_lt in X end.
     fin; [change (2 ^ 3) with 8 | change (2 ^ 5) with 32]; Z.div_mod_to_equations; lia.
+  - (* SVecListElem *) destruct ops as [|[] r]; try discriminate. unfold fits_u in H.
+    match type of H with (if ?c then _ else _) = _ => destruct c eqn:E; try discriminate end.
+    match type of H with match ?m with Some _ => _ | None => _ end = _ => destruct m; inversion H; subst end. b2p. fin; lia.
+  - (* SImmAff *) destruct ops as [|[] r]; try discriminate. unfold fits_u in H.
+    destruct (((v - base) mod step =? 0) && ((0 <=? (v - base) / step) && ((v - base) / step <? 2 ^ w))) eqn:E; inversion H; subst. b2p. fin. lia.
 Qed.
 
 (* pairwise disjointness: soundness of the reflective check (generic, no database constants) *)
